@@ -266,6 +266,11 @@ def burst_worker(a):
             lines.append("%d %s" % (cid, tail))
         gone = set(half)
     data = ("\n".join(lines) + "\n").encode("latin-1")
+    if a.get("pad4096"):
+        # the burst is a whole number of 4096-byte reads long: the last read fills the daemon's buffer exactly, and nothing follows
+        pad = (-len(data) - 8) % 4096
+        data += b"-1 zzz " + b"p" * pad + b"\n"
+        data += b"\n" * ((-len(data)) % 4096)
     res = {"viol": [], "stats": {"burst_runs": 1, "burst_lines": len(lines), "burst_verdicts_at_quiescence": 0}, "inconc": [], "hash": vcommon.h(["burst", seed, n]), "nontrivial": bool(complete)}
     # sock: the daemon's standard input and output are ONE socket, as under an IRC server, and the reader falls behind: nothing is
     # read while input can still be written (the daemon's writes have to wait for the reader; none may get lost)
@@ -300,6 +305,11 @@ def burst_worker(a):
         d.kill()
         res["inconc"].append("daemon died / hung in a burst run")
         return res
+    if not quiet and getattr(d, "blocked_in_read", False) and pos == len(data):
+        # every byte was taken, and the daemon sleeps inside read(2) on its input for two seconds on end: whatever it has not said by
+        # now it will not say until the server sends something else
+        res["stats"]["burst_runs_ending_blocked_in_read"] = 1
+        quiet = True
     if not quiet:
         res["inconc"].append("the daemon did not come to rest within the watchdog time in a burst run")
         return res
@@ -323,7 +333,7 @@ def burst_worker(a):
     # a client withdrawn at the end of the burst had been decided before (its lines came first)
     extra = [c for c in got if c not in complete]
     twice = [c for c, v in got.items() if len(v) > 1]
-    wit = {"seed": seed, "n": n, "service": bool(a.get("service")), "burst": True, "after": bool(a.get("after")), "sock": bool(a.get("sock"))}
+    wit = {"seed": seed, "n": n, "service": bool(a.get("service")), "burst": True, "after": bool(a.get("after")), "sock": bool(a.get("sock")), "pad4096": bool(a.get("pad4096"))}
     if missing:
         res["viol"].append(("C03", "burst-stuck", "burst-stuck", "%d clients were announced and given everything they need in one burst of %d lines (%d bytes, one write); when the daemon had "
                             "drained its input and gone to sleep, %d of them had no verdict (first: %s)\nfirst input lines: %s" % (
@@ -395,7 +405,7 @@ def fold_bursts(chk, prop, tier, scale, b, mult, nq=8, nt=120):
 
 def replay_burst(chk, w, prop, tag):
     import prun
-    r = burst_worker(dict(build=prun.build_daemon(tag), seed=w["seed"], n=w["n"], service=w["service"], after=w.get("after"), sock=w.get("sock")))
+    r = burst_worker(dict(build=prun.build_daemon(tag), seed=w["seed"], n=w["n"], service=w["service"], after=w.get("after"), sock=w.get("sock"), pad4096=w.get("pad4096")))
     hit = [v for v in r["viol"] if v[0] == prop]
     for v in hit:
         print(v[3])
